@@ -21,6 +21,17 @@ STRENGTHENED = {
     "V2-m1": "missed at first (no Switchboard venue banks on chain, no cell for the valuation accounts of pass-through collateral); caught by the new venue-only-account borrow cells in worlds whose venue banks use the Switchboard setup",
     "V2-m2": "missed at first; frozen-account cells extended to the pass-through instructions",
     "V4-m1": "caught by the new receivership-on-paused-bank cells of the C14 matrix",
+    "C07-m4": "missed at first; request-fidelity monitor added (every flag of an accepted ConfigureBank request must read back as requested)",
+    "C08-m3": "missed at first; request-fidelity monitor covers GroupConfigure roles, and the admin workload rotates every role",
+    "C08-m4": "missed at first (no staked bank in the matrix worlds); the matrix now substitutes each of the three valuation accounts of a staked collateral one at a time",
+    "C15-m4": "missed by the direct sweep (it drives the state functions, not the handlers); caught by the pause-chain engine that runs the real pause / unpause instructions against a shadow of the fee state",
+    "C16-m4": "missed at first (the storm's liquidator held every bank, and an honest observation list makes the changed handler refuse); storms now liquidate with fresh accounts / holders of the collateral bank only, and callers name a bank twice among the observation accounts",
+    "C17-m4": "missed at first; storms now configure borrow limit 0 as one of the limit classes",
+    "C18-m4": "missed by the direct sweep (validation functions only); caught by the chain monitor that re-validates every curve an accepted interest instruction leaves behind",
+    "C19-m3": "missed at first; the emissions clock stamp of every touched position is now checked",
+    "C19-m4": "missed at first; the workload now makes the token account of the all-zero wallet exist and names it for accounts without a destination",
+    "C20-m3": "missed at first in most runs; the stale-venue probes now also run with a price account older than the venue's last refresh",
+    "C20-m4": "missed at first; cached venue price is compared with oracle price x exact rate, and venue worlds now contain reserves below rate 1",
     "V4-m2": "caught once every gated instruction (not only deposit) is probed right after the pause expiry",
 }
 def title(d):
